@@ -1,6 +1,7 @@
 package exec
 
 import (
+	"os"
 	"fmt"
 	"go/types"
 	"math"
@@ -210,6 +211,11 @@ func init() {
 				}
 			}
 			e.observes = append(e.observes, rec)
+			if os.Getenv("GOSMT_OBSDEBUG") != "" {
+				for _, v := range rec.vals {
+					fmt.Println("OBS", rec.label, describe(v))
+				}
+			}
 			return nil
 		},
 		"verifSymBytes": func(e *Exec, th *Thread, caller *Frame, site ssa.Instruction, args []Value) Value {
@@ -474,26 +480,40 @@ func (e *Exec) makeError(th *Thread, caller *Frame, site ssa.Instruction, msg Va
 
 // fmtArgs renders a format call approximately (formatting is never the subject of a check).
 func (e *Exec) fmtApprox(format string, args []Value) string {
-	var sb strings.Builder
-	sb.WriteString(format)
-	for _, a := range args {
+	// concrete arguments are formatted by the real fmt package; anything else is opaque
+	gargs := make([]interface{}, len(args))
+	for i, a := range args {
 		if iv, ok := a.(IfaceV); ok {
 			a = iv.V
 		}
 		switch x := a.(type) {
 		case string:
-			sb.WriteString(" " + x)
+			gargs[i] = x
+		case *SymStr:
+			gargs[i] = "<sym>"
 		case *smt.Term:
-			if x.IsConst() {
-				sb.WriteString(" " + x.String())
-			} else {
-				sb.WriteString(" <sym>")
+			switch {
+			case !x.IsConst():
+				gargs[i] = "<sym>"
+			case x.Sort.K == smt.KBool:
+				gargs[i] = x.K == 1
+			case x.Sort.K == smt.KInt && x.Sort.Signed:
+				gargs[i] = x.Int64()
+			case x.Sort.K == smt.KInt:
+				gargs[i] = x.K
+			default:
+				gargs[i] = x.Float()
 			}
+		case nil:
+			gargs[i] = nil
 		default:
-			sb.WriteString(" <" + fmt.Sprintf("%T", a) + ">")
+			gargs[i] = fmt.Sprintf("<%T>", a)
 		}
 	}
-	return sb.String()
+	if format == "" {
+		return fmt.Sprint(gargs...)
+	}
+	return fmt.Sprintf(format, gargs...)
 }
 
 func (e *Exec) variadic(fr *Frame, site ssa.Instruction, v Value) []Value {
